@@ -1,6 +1,13 @@
+mod c01;
 mod c11;
 mod cborref;
 mod core;
+mod docs;
+mod patterns;
+mod refmodel;
+mod space;
+mod terms;
+mod verdicts;
 use crate::core::*;
 
 fn main() {
@@ -16,6 +23,7 @@ fn main() {
     quiet_panics();
     let r = match prop {
       "C11" => c11::replay(&j["case"]),
+      "C01" => c01::replay(&j["case"]),
       _ => {
         eprintln!("ENGINE-ERROR no replay for {prop}");
         std::process::exit(2)
@@ -38,6 +46,7 @@ fn main() {
   };
   let code = match args[1].as_str() {
     "C11" => c11::run(tier),
+    "C01" => c01::run(tier),
     x => {
       eprintln!("ENGINE-ERROR unknown property {x}");
       2
